@@ -77,7 +77,7 @@ FLOWS = [
     # self._seed_keys.setdefault(..).setdefault(..)[l0] = gke stores through a call chain): no flow, covered by the kernels above
     # KeyCache._store_key and _get_key: refused by vlib/flow.py (store through a possible alias of an inner dictionary): no flow;
     # they stay with the kernels k_cache_store / k_cache_covers / k_cache_root_overwrites and the correspondence cache.histories
-    Flow("k_flow_ncrypt_unprotect_secret", "_client.py", "ncrypt_unprotect_secret", props=("C10", "C01")),
+    Flow("k_flow_ncrypt_unprotect_secret", "_client.py", "ncrypt_unprotect_secret", props=("C10", "C01", "C05")),
     Flow("k_flow_ncrypt_protect_secret", "_client.py", "ncrypt_protect_secret", props=("C10", "C01")),
     Flow("k_flow_async_ncrypt_unprotect_secret", "_client.py", "async_ncrypt_unprotect_secret", props=("C10", "C01")),
     Flow("k_flow_async_ncrypt_protect_secret", "_client.py", "async_ncrypt_protect_secret", props=("C10", "C01")),
